@@ -179,6 +179,9 @@ type Exec struct {
 	assignsAny bool
 	noAutoInv  bool
 	staleMemo  map[string]string
+	sliceSeqDone map[int]bool
+	canonVars  map[string]*smt.Term
+	seqFuncByKey map[string]string
 	staleOwn   bool // the contract of the function under verification was ignored as stale
 	extraReveal map[string]bool // predicates revealed by ignored (stale) contracts of inlined callees
 	fixedLen   map[int]*smt.Term // fixed length of sequence-valued spec terms
